@@ -15,7 +15,7 @@ FLAVOURS = ["asyncio", "trio", "threading"]
 CONTEXTS = ["outside", "threading", "asyncio", "trio"]
 OUTCOMES = [("return", "None"), ("return", "0"), ("return", "''"), ("return", "[]"),
             ("return", "object"), ("raise", "LookupError"), ("raise", "UserError"),
-            ("raise", "StopAsyncIteration")]
+            ("raise", "StopAsyncIteration"), ("raise", "TimeoutError"), ("raise", "UserTimeout")]
 ARGS = [((), {}), ((1,), {"k": 2}), ((1, "a"), {}), ((), {"k": 2, "m": None})]
 
 
@@ -133,8 +133,11 @@ class Scenario:
                         % (ident, obj, event, rdata.get("value", rdata.get("exc")))))
             else:
                 if event != "execute-raised" or rdata["exc"] is not obj:
+                    copied = event == "execute-raised" and type(rdata["exc"]) is type(obj) \
+                        and rdata["exc"].args == obj.args
                     violations.append((
-                        "%s:wrong-exception" % key,
+                        "%s:wrong-exception%s" % (
+                            key, ":equal-copy-of-%s" % type(obj).__name__ if copied else ""),
                         "execute(%s): payload raised %r, caller got %s %r"
                         % (ident, obj, event, rdata.get("value", rdata.get("exc")))))
         # the runtime is left alone
